@@ -23,7 +23,7 @@ LEVEL = "exploration"
 RULE = ("scenario = 1..3 producers x 1..10 items each (typed messages of the four envelope classes + legacy class, plain dicts, "
         "pre-serialised strings, unserialisable objects) x child read behaviour (eager/slow/stall windows) x pipe capacity x close instant; "
         "non-trivial = a send blocked on back-pressure, or an unserialisable item preceded a serialisable one, or >= 2 producers interleaved")
-PROBES = ["queued_through_send_json", "typed_object_changed_in_place_and_sent_again", "child_closed_stdout_keeps_reading", "unencodable_string_item", "value_rejected_by_fast_json_backend", "frame_over_64k", "inbound_batch_rejected_during_writes", "stdin_send_blocked", "unserialisable_before_valid", "producers_interleaved", "payload_with_line_breaks", "closed_while_backlog"]
+PROBES = ["host_pretty_printed_something_first", "queued_through_send_json", "typed_object_changed_in_place_and_sent_again", "child_closed_stdout_keeps_reading", "unencodable_string_item", "value_rejected_by_fast_json_backend", "frame_over_64k", "inbound_batch_rejected_during_writes", "stdin_send_blocked", "unserialisable_before_valid", "producers_interleaved", "payload_with_line_breaks", "closed_while_backlog"]
 TIERS = {"quick": {"runs": 15000, "wall": 45.0}, "thorough": {"runs": 800000, "wall": 560.0}}
 ASSUMPTIONS = [
     "order 'sent' = order in which the (real, FIFO) write stream accepted the items",
@@ -106,14 +106,41 @@ def generate(rng: random.Random, tier: str) -> dict:
         read_every = 1
     version = rng.choice([None, None, "2025-06-18", "2025-03-26"])
     inbound = [{"t": rng.randrange(0, 300), "hops": rng.choice([0, 1, 2, 3])} for _ in range(rng.choice([0, 0, 1, 2, 4]))] if version == "2025-06-18" else []
+    if rng.random() < 0.06:
+        # a long run of messages that cannot be serialised, with only responses / raw strings (no request or notification) delivered in between
+        run = []
+        for q in range(rng.choice([5, 6, 8])):
+            k += 1
+            run.append({"shape": "unser", "k": k, "what": rng.choice(["object", "set_in_dict", "circular", "typed_with_object"]), "producer": 0, "delay": 0})
+            if rng.random() < 0.4:
+                k += 1
+                it = _gen_item(rng, k)
+                it["shape"] = rng.choice(["typed_response", "str_compact"])
+                it["obj"] = {"jsonrpc": "2.0", "id": k, "result": {"k": k}}
+                it.pop("exotic", None); it.pop("big", None)
+                it["producer"], it["delay"] = 0, 0
+                run.append(it)
+        tail = []
+        for q in range(3):
+            k += 1
+            it = _gen_item(rng, k)
+            if it["shape"] in ("unser", "resend"):
+                it = {"shape": "dict", "k": k, "obj": {"jsonrpc": "2.0", "method": "notifications/progress", "params": {"progressToken": k, "message": "after the run"}}}
+            it["producer"], it["delay"] = 0, 0
+            it.pop("big", None); it.pop("exotic", None)   # (the read pace was chosen before this family was added: keep the tail small)
+            tail.append(it)
+        items = [x for x in items if x["producer"] != 0] + run + tail
     # the server is chatty and this client only writes: more unread inbound messages than the read stream buffers
     inbound_flood = rng.choice([120, 101, 250]) if rng.random() < 0.1 else 0
-    return {"v": 1, "inbound_flood": inbound_flood, "child_closes_stdout_at": closes_stdout if fault is None else None, "version": version, "inbound_batches": inbound, "items": items, "read_mode": read_mode, "read_every": read_every, "read_bytes": read_bytes,
+    # the hosting process also formats something with indent= through the library's JSON layer (MCPServer does for dict tool results)
+    return {"v": 1, "pretty_dump_first": rng.random() < 0.15, "inbound_flood": inbound_flood, "child_closes_stdout_at": closes_stdout if fault is None else None, "version": version, "inbound_batches": inbound, "items": items, "read_mode": read_mode, "read_every": read_every, "read_bytes": read_bytes,
             "capacity": rng.choice([1, 16, 100, 1000, 65536]), "stall": [rng.randrange(0, 50), rng.randrange(10, 400)],
             "close_at": rng.choice([None, None, 0, 5, 50]), "fault": fault}
 
 
 def simplify(scn):
+    if scn.get("pretty_dump_first"):
+        c = copy.deepcopy(scn); c["pretty_dump_first"] = False; yield c
     if scn.get("inbound_flood"):
         c = copy.deepcopy(scn); c["inbound_flood"] = 0; yield c
     for i, it in enumerate(scn["items"]):
@@ -257,6 +284,10 @@ def execute(scn: dict) -> dict:
                 _read, write = client.get_streams()
                 ws = RecSend(sim, write)
                 st["ws"] = ws
+                if scn.get("pretty_dump_first"):
+                    from chuk_mcp.protocol import fast_json as _fj
+                    _fj.dumps({"tool": "result", "rows": [1, 2, {"k": None}]}, indent=2)
+                    sim.probe("host_pretty_printed_something_first")
                 if scn.get("inbound_flood"):
                     child.write_stdout([b"".join(b'{"jsonrpc":"2.0","method":"notifications/message","params":{"data":"chatter-%d"}}\n' % q
                                                  for q in range(scn["inbound_flood"]))])
